@@ -1,6 +1,6 @@
 /- Driver for C13: the real qmail-local main() (harness/c13_local.c) vs `Nq.Local.run`; oracle = the documented
    behaviour `Nq.LocalSpec` evaluated on the implementation's outputs.
-   Input lines: `<doit> <blob> <exit> <stdout> <stderr> <opened> <events> <env>` (see the harness header). -/
+   Input lines: `<doit> <blob> <exit> <stdout> <stderr> <opened> <events> <env> <stats> <files>` (see the harness header). -/
 import Drv.Util
 import Nq.Local
 import Nq.Spec.LocalSpec
@@ -238,91 +238,112 @@ def sEffStr (dt msg : Bytes) : LocalSpec.Effect → String
   | .program c => "P" ++ hex c
   | .queue s rs => "Q" ++ hex s ++ ":" ++ hex (dt ++ msg) ++ String.join (rs.map (fun r => ":" ++ hex r))
 
-/-- returns the names of the violated clauses -/
-def oracle (c : Case) (exit : Int) (out err : Bytes) (opens : String) (events : String) (env : List String) : List String := Id.run do
+def parseHexList (l : String) : Option (List Bytes) :=
+  if l == "-" then some [] else (l.splitOn ",").foldr (fun s acc => match acc, unhex s with
+    | some l, some b => some (b :: l) | _, _ => none) (some [])
+
+/-- the documentation's view of the case (`Nq.LocalSpec.Setting`): the same record `settingOf` builds from the model's
+arguments and world in `C13_run_outcome` -/
+def settingOfCase (c : Case) (hm : Nat) : LocalSpec.Setting :=
+  { doit := c.doit, homeMode := hm, loc := c.loc, dash := c.dash, ext := c.ext, host := c.host, sender := c.sender,
+    dflt := c.alias, msg := c.msg, look := lookOf c.files, present := exOf c.files,
+    run := fun cmd => match pxOf cmd with | .exited n => .exited n | .crashed => .crashed,
+    fileOK := fun i => match i with
+      | .mbox f => (match dxOf c.files (.mbox f) with | some w => w.code | none => 0)
+      | .maildir f => (match dxOf c.files (.maildir f) with | some w => w.code | none => 0)
+      | _ => 0,
+    queueReply := (worldOf c).qq }
+
+/-- the file (relative to the home, `dir/new/*` for a maildir) an observed delivery event may create or change -/
+def eventFile (ev : String) : Option String :=
+  match ev.toList with
+  | 'M' :: h => match unhex (String.ofList h) with
+    | some f => some (hex (collapse (dropDotSlash f)))
+    | none => none
+  | 'D' :: h => match unhex (String.ofList h) with
+    | some d => some (hex (stripSlash (collapse (dropDotSlash d)) ++ str "/new/*"))
+    | none => none
+  | _ => none
+
+/-- returns the names of the violated clauses: `LocalSpec.outcome` (the predicate of `C13_run_outcome`) and the
+search / confinement / owner-name / header-line predicates, all evaluated on the implementation's output -/
+def oracle (c : Case) (exit : Int) (out err : Bytes) (opens : String) (events : String) (env : List String)
+    (stats : String) (files : String) : List String := Id.run do
   let mut bad : List String := []
-  let quiet := events == "-" && !(isInfix (str "mbox ") out || isInfix (str "maildir ") out || isInfix (str "program ") out || isInfix (str "forward ") out)
+  let quiet := events == "-" && files == "-" &&
+    !(isInfix (str "mbox ") out || isInfix (str "maildir ") out || isInfix (str "program ") out || isInfix (str "forward ") out)
   -- hostile envelope bytes cannot add header lines
-  for (i, nm) in [(2, "DTLINE"), (3, "RPLINE")] do
+  for (i, nm) in [(2, "DTLINE"), (3, "RPLINE"), (4, "UFLINE")] do
     match env[i]? with
     | some g => if g != "!" then
         match unhex g with
         | some b => if !LocalSpec.oneLine b then bad := s!"noinject:{nm}" :: bad
         | none => pure ()
     | none => pure ()
+  -- every file that appeared or changed in the home directory is explained by an observed delivery event
+  let explained := (if events == "-" then [] else events.splitOn ",").filterMap eventFile
+  for f in (if files == "-" then [] else files.splitOn ",") do
+    let f' := if f.startsWith "~" then (f.drop 1).toString else f
+    if !(explained.contains f') then bad := "effects:unobserved-file" :: bad
   match c.home with
   | none => return bad      -- stat(".") failing is outside the documentation
   | some hm =>
+  let S := settingOfCase c hm
+  let e := LocalSpec.outcome S
+  let dt := LocalSpec.dtline c.loc c.host
+  -- confinement of everything opened or stat'ed, whatever the stage
+  if !(c.dash.contains 46) then
+    match parseHexList opens, parseHexList stats with
+    | some os, some ss =>
+      if !(os.all LocalSpec.confined) then bad := "search:confined" :: bad
+      if !(ss.all LocalSpec.confined) then bad := "owner:confined" :: bad
+    | _, _ => bad := "search:unparsable" :: bad
+  -- which stage decides (only to name the clause; the verdict is `e`)
   if hm &&& 2 != 0 || (hm &&& 0o1000 != 0 && c.doit) then
-    if !(exit == 111 && quiet) then bad := "perm:home" :: bad
+    if !(exit == Int.ofNat e.code && quiet && opens == "-" && stats == "-") then bad := "perm:home" :: bad
     return bad
   if c.doit && LocalSpec.loops c.loc c.host c.msg then
-    if !(exit == 100 && quiet) then bad := "loop" :: bad
+    if !(exit == Int.ofNat e.code && quiet && opens == "-" && stats == "-") then bad := "loop" :: bad
     return bad
   if isInfix (str "looping") err then
     bad := "loop:spurious" :: bad     -- bounced as a loop although the header has no such line
     return bad
-  let look := lookOf c.files
   let cands := LocalSpec.candidates c.dash c.ext
-  let must := LocalSpec.mustOpen look cands
+  let must := LocalSpec.mustOpen S.look cands
   if hexList must != opens then bad := "search:order" :: bad
   if !(c.dash.contains 46) && !(must.all LocalSpec.confined) then bad := "search:confined-spec" :: bad
-  if !(c.dash.contains 46) then
-    match (if opens == "-" then some [] else (opens.splitOn ",").foldr (fun s acc => match acc, unhex s with
-        | some l, some b => some (b :: l) | _, _ => none) (some [])) with
-    | some os => if !(os.all LocalSpec.confined) then bad := "search:confined" :: bad
-    | none => bad := "search:unparsable" :: bad
-  let sx := c.ext.map LocalSpec.safeChar
-  let owner (suffix : Bytes) : Option Bool := exOf c.files (LocalSpec.dotQmail ++ c.dash ++ sx ++ suffix)
-  let needOwner := !(c.sender == [] || c.sender == [35, 64, 91, 93])
-  let run (cmd : Bytes) : LocalSpec.Ran := match pxOf cmd with | .exited n => .exited n | .crashed => .crashed
-  let fileOK (i : LocalSpec.SInstr) : Nat := match i with
-    | .mbox f => match dxOf c.files (.mbox f) with | some w => w.code | none => 0
-    | .maildir f => match dxOf c.files (.maildir f) with | some w => w.code | none => 0
-    | _ => 0
-  -- text to follow
-  let ctl := LocalSpec.control look cands
-  let plan : Option (Bytes × Bool) :=     -- none: must fail before any instruction
-    match ctl with
-    | none => if c.dash != [] then none else some (c.alias, false)
-    | some (_, .file m content) => if m &&& 2 != 0 then none else if content.isEmpty then some (c.alias, false) else some (content, m &&& 0o100 != 0)
-    | some (_, _) => none
-  match plan with
-  | none =>
-    let want : Int := match ctl with | none => 100 | _ => 111
-    if !(exit == want && quiet) then bad := (if want == 100 then "nofile" else "perm:qmail") :: bad
+  match LocalSpec.plan S with
+  | .error code =>
+    if !(exit == Int.ofNat e.code && quiet && stats == "-") then bad := (if code == 100 then "nofile" else "perm:qmail") :: bad
     return bad
-  | some (text, fo) =>
-    let o1 := if needOwner then owner [45, 111, 119, 110, 101, 114] else some false
-    let o2 := if needOwner && o1 == some true then owner ([45, 111, 119, 110, 101, 114, 45] ++ LocalSpec.dflt) else some false
-    match o1, o2 with
-    | some o1, some o2 =>
+  | .ok _ =>
+    -- the names examined for the -owner test are the documented ones
+    if hexList (LocalSpec.ownerNames S) != stats then bad := "owner:names" :: bad
+    match LocalSpec.senderFor S with
+    | none =>
+      if !(exit == Int.ofNat e.code && quiet) then bad := "owner:temp" :: bad
+      return bad
+    | some _ =>
       -- $DEFAULT as documented (only once the environment is complete: NEWSENDER set)
       if (env[1]?).getD "!" != "!" then
-        let wantD : Option Bytes := match ctl with
+        let wantD : Option Bytes := match LocalSpec.control S.look cands with
           | some (n, _) => LocalSpec.defaultVar c.dash c.ext n
           | none => none
         let gotD : Option Bytes := match env[0]? with
           | some g => if g == "!" then none else unhex g
           | none => none
         if wantD != gotD then bad := "env:DEFAULT" :: bad
-      let snd := LocalSpec.forwardSender c.loc c.host c.sender o1 o2
-      let qcode : Nat := if c.qq == 1 then 100 else if c.qq == 2 then 111 else 0
-      let e := LocalSpec.follow c.doit fo text snd run fileOK qcode
       if exit != Int.ofNat e.code then bad := s!"dispatch:exit(want {e.code})" :: bad
-      let dt := LocalSpec.dtline c.loc c.host
       let wantEv := if e.effects.isEmpty then "-" else ",".intercalate (e.effects.map (sEffStr dt c.msg))
       if c.doit && wantEv != events then bad := "dispatch:effects" :: bad
       if !c.doit && events != "-" then bad := "dispatch:n-has-effects" :: bad
-      let didl := str "did " ++ fmtNat e.counts.1 ++ [43] ++ fmtNat e.counts.2.1 ++ [43] ++ fmtNat e.counts.2.2 ++ [10]
       if !c.doit then
-        let want := (e.shown.map LocalSpec.describe).flatten ++ (if e.code == 0 then didl else [])
-        if want != out then bad := "dispatch:description" :: bad
+        if LocalSpec.printedN e != out then bad := "dispatch:description" :: bad
       else if e.code == 0 then
-        if !(didl.isPrefixOf out) then bad := "dispatch:counts" :: bad
-      return bad
-    | _, _ =>
-      if !(exit == 111 && quiet) then bad := "owner:temp" :: bad
+        if !((LocalSpec.didl e.counts).isPrefixOf out) then bad := "dispatch:counts" :: bad
+      -- no file delivery documented: no file may appear or change
+      if !(e.effects.any (fun x => match x with | .mbox _ => true | .maildir _ => true | _ => false)) && files != "-" then
+        bad := "dispatch:unexpected-file" :: bad
       return bad
 
 def handle (st : Stats) (line : String) : IO Stats := do
@@ -330,7 +351,7 @@ def handle (st : Stats) (line : String) : IO Stats := do
   | [doitS, blob, "SKIP"] =>
     let _ := (doitS, blob)
     return (st.bump "skipped")
-  | [doitS, blob, exitS, outH, errH, opens, events, envS] =>
+  | [doitS, blob, exitS, outH, errH, opens, events, envS, statsS, filesS] =>
     let doit := doitS == "1"
     match parseBlob doit blob, unhex outH, unhex errH, exitS.toInt? with
     | some c, some out, some err, some exit =>
@@ -361,15 +382,16 @@ def handle (st : Stats) (line : String) : IO Stats := do
       if out != r.out then diffs := s!"stdout(model {hex r.out})" :: diffs
       if !(if exact then err == wantErr else wantErr.isPrefixOf err) then diffs := s!"stderr(model {hex wantErr})" :: diffs
       if opens != hexList r.tried then diffs := s!"opened(model {hexList r.tried})" :: diffs
+      if statsS != hexList r.stats then diffs := s!"stats(model {hexList r.stats})" :: diffs
       if events != effsStr dt c.msg r.effects then diffs := s!"events(model {effsStr dt c.msg r.effects})" :: diffs
       if !envAgree (envExpect c r) envL then diffs := "env" :: diffs
       if !diffs.isEmpty then
-        IO.println s!"DISAGREE in={blob} doit={doitS} what={",".intercalate diffs.reverse |>.replace " " "_"} impl_exit={exitS} impl_out={outH} impl_err={errH} impl_opened={opens} impl_events={events} impl_env={envS}"
+        IO.println s!"DISAGREE in={blob} doit={doitS} what={",".intercalate diffs.reverse |>.replace " " "_"} impl_exit={exitS} impl_out={outH} impl_err={errH} impl_opened={opens} impl_events={events} impl_env={envS} impl_stats={statsS} impl_files={filesS}"
         st := { st with disagree := st.disagree + 1 }
       -- property oracle on the implementation's behaviour
-      let bad := oracle c exit out err opens events envL
+      let bad := oracle c exit out err opens events envL statsS filesS
       if !bad.isEmpty then
-        IO.println s!"ORACLE in={blob} doit={doitS} clause={",".intercalate bad.reverse |>.replace " " "_"} impl_exit={exitS} impl_out={outH} impl_opened={opens} impl_events={events}"
+        IO.println s!"ORACLE in={blob} doit={doitS} clause={",".intercalate bad.reverse |>.replace " " "_"} impl_exit={exitS} impl_out={outH} impl_opened={opens} impl_events={events} impl_stats={statsS} impl_files={filesS}"
         st := { st with oracle := st.oracle + 1 }
       if fresh && st.samples < 3 && doit && r.effects.length ≥ 2 then
         IO.println s!"SAMPLE in={blob} doit={doitS} exit={exitS} opened={opens} events={events}"
